@@ -574,7 +574,104 @@ fn blocked_listener_race(r: &mut Rng, res: &mut CaseResult) {
     res.sample = Some(json!({"scenario": "blocked notice sent after the listener was registered while the I/O thread was inside a read pass"}));
 }
 
+/// What the broker sends on a channel between the client's Channel.Close and its own
+/// CloseOk - confirmations and returned messages for publishes made before the close - is
+/// sent on that channel like everything else, and reaches the listeners that are there.
+fn events_behind_channel_close(r: &mut Rng, res: &mut CaseResult) {
+    use amiquip::{Confirm, Publish};
+    let (conn, h) = session::open_default(Reflex::default());
+    let mut conn = match conn {
+        Ok(c) => c,
+        Err(e) => {
+            res.inconclusive(format!("handshake: {}", ek(&e)));
+            return;
+        }
+    };
+    let ch = match conn.open_channel(None) {
+        Ok(c) => c,
+        Err(e) => {
+            res.inconclusive(format!("open_channel: {}", ek(&e)));
+            return;
+        }
+    };
+    let chid = ch.channel_id();
+    let (confirms, returns) = match (ch.listen_for_publisher_confirms(), ch.listen_for_returns()) {
+        (Ok(c), Ok(r)) => (c, r),
+        _ => {
+            res.inconclusive("listeners");
+            return;
+        }
+    };
+    let n = r.usize(1, 12);
+    for i in 0..n {
+        if let Err(e) = ch.basic_publish("", Publish::new(&[i as u8; 4], "pending")) {
+            res.inconclusive(format!("publish: {}", ek(&e)));
+            return;
+        }
+    }
+    // the broker keeps its CloseOk back for a moment
+    h.with(|st| {
+        st.reflex.hold_channels.insert(chid);
+        st.reflex.hold_open_close = true;
+    });
+    let t = run::spawn("closer", move || ch.close().map_err(|e| ek(&e)));
+    if !h.wait(W, |st| st.frames.iter().any(|f| f.ch == chid && matches!(f.method(), Some(AMQPClass::Channel(amq_protocol::protocol::channel::AMQPMethod::Close(_))))) || st.released) {
+        res.inconclusive("the client's Channel.Close never reached the broker");
+        return;
+    }
+    // ... and first settles what is outstanding
+    let mut sent: Vec<RawConfirm> = Vec::new();
+    let mut bytes = Vec::new();
+    let mut returned = 0usize;
+    for i in 0..n {
+        if r.chance(1, 3) {
+            let m = crate::reflex::Msg { exchange: "".into(), routing_key: "pending".into(), redelivered: false, delivery_tag: 0, props: Default::default(), body: vec![i as u8; 4], message_count: 0 };
+            bytes.extend(crate::reflex::return_frames(chid, 312, "NO_ROUTE", &m, &[4]).concat());
+            returned += 1;
+        }
+        let c: RawConfirm = (i as u64 + 1, false, !r.chance(1, 4));
+        bytes.extend(confirm_frame(chid, c));
+        sent.push(c);
+    }
+    h.inject(bytes);
+    std::thread::sleep(Duration::from_micros(r.range(0, 1500)));
+    h.reflex(|rf, out| rf.release_all(out));
+    match t.join(W) {
+        J::Done(Ok(())) => {}
+        J::Done(Err(e)) => res.violate("call_failed", format!("Channel::close: {}", e)),
+        _ => res.violate("call_failed", "Channel::close did not return".to_string()),
+    }
+    let got: Vec<RawConfirm> = confirms.try_iter().map(|c: Confirm| raw(&c)).collect();
+    if got != sent {
+        res.violate("confirm_lost_or_changed", format!("ch{}: the broker sent {:?} between the client's Channel.Close and its CloseOk, the listener got {:?}", chid, sent, got));
+    }
+    let got_returns = returns.try_iter().count();
+    if got_returns != returned {
+        res.violate("return_lost", format!("ch{}: {} returned messages sent between the client's Channel.Close and the CloseOk, the listener got {}", chid, returned, got_returns));
+    }
+    res.obs("confirms_sent", sent.len() as u64);
+    res.obs("events_sent_behind_a_channel_close", (sent.len() + returned) as u64);
+    let tc = run::spawn("close", move || conn.close());
+    let _ = tc.join(W);
+    for p in run::io_panics(&run::take_panics()) {
+        res.violate("io_thread_panic", format!("{} at {}", p.msg, p.loc));
+    }
+    res.sig = crate::rng::fnv_str(&format!("behindclose{:?}{}", sent, returned));
+    res.sample = Some(json!({"scenario": "confirmations and returns between the client's Channel.Close and the CloseOk", "confirms": sent.len(), "returns": returned}));
+}
+
 pub fn run(rc: &mut RunCtx) {
+    for i in 0..rc.n(30, 600) {
+        let id = format!("behind-channel-close:{}", i);
+        if !rc.mine(&id) {
+            continue;
+        }
+        rc.begin(&id);
+        let mut res = CaseResult::new(id);
+        let mut r = Rng::for_case(rc.seed, 13, 9_000_000 + i);
+        events_behind_channel_close(&mut r, &mut res);
+        rc.end(res);
+    }
     for i in 0..rc.n(32, 600) {
         let id = format!("blocked-race:{}", i);
         if !rc.mine(&id) {
